@@ -9,7 +9,7 @@ ALPHA = {
     "stringbq": [34, 96, 92, 97, 10],
     "char": [39, 92, 110, 120, 52, 97, 195, 169],                     # ' \ n x 4 a C3 A9
     "bool": [97, 98, 95, 32], "nil": [97, 98, 95, 32], "word": [97, 98, 49, 32], "op": [97, 98],
-    "rune": [195, 169, 97],
+    "rune": [195, 169, 97, 233],     # C3 A9 = the encoding of the rune; E9 = its code point as a single (invalid) byte
     "duration": [49, 46, 104, 109, 115, 110, 117, 194, 181, 45],      # 1 . h m s n u C2 B5 -
 }
 
